@@ -187,13 +187,15 @@ func (w *world) memPreserved(c *rCtr) bool {
 type reporter func(clause, sig string, format string, a ...any)
 
 type oracles struct {
-	lastKind string
-	lastErr  bool // the last request failed
-	errSince map[string]bool
-	w        *world
-	pristine string // C09: zones right after applying the configuration
-	prevZone map[string]uint64
-	c13      *c13state
+	canon     int
+	coexisted [][]string
+	lastKind  string
+	lastErr   bool // the last request failed
+	errSince  map[string]bool
+	w         *world
+	pristine  string // C09: zones right after applying the configuration
+	prevZone  map[string]uint64
+	c13       *c13state
 }
 
 func newOracles(w *world) *oracles { return &oracles{w: w, prevZone: map[string]uint64{}} }
@@ -233,6 +235,9 @@ func (o *oracles) afterRequest(rep *reply) {
 	w := o.w
 	o.lastKind = rep.kind
 	o.lastErr = rep.err != nil
+	if rep.kind == "restart" {
+		o.wrapAllocator() // a new incarnation has a new allocator
+	}
 	pol := w.plan.Policy
 	switch w.prop {
 	case "C01":
@@ -255,12 +260,17 @@ func (o *oracles) afterRequest(rep *reply) {
 		o.checkC12(o.report("C12"), rep)
 	case "C13":
 		o.checkC13(o.report("C13"), rep)
+	case "C14":
+		o.checkC14(o.report("C14"), rep)
 	case "C16":
 		if rep.kind == "reconfigure" && rep.err == nil {
 			o.checkC16(o.report("C16"))
 		}
 	}
 	_ = pol
+	if w.prop == "C11" {
+		o.noteCoexisting()
+	}
 	o.rememberZones()
 }
 
@@ -489,7 +499,17 @@ func (o *oracles) checkToldEqualsCache(rep reporter, ctx string) {
 			}
 			if cf[f] != tf[f] {
 				sig := "told-equals-cache " + ctx + " " + f
-				if strings.HasPrefix(ctx, "failed-") {
+				if !o.allocated(y.spec.ID) && !o.optedOutOfAllocation(y) {
+					// the container lost its allocation (F8/F25): nothing
+					// re-applies or re-sends its resources
+					sig = "told-equals-cache container-without-allocation"
+				} else if y.reqUnsure {
+					// an earlier UpdateContainer for it failed half-way (F6/F8):
+					// plugin and runtime disagree about it since then
+					sig = "told-equals-cache after-failed-request"
+				} else if ctx == "rejected-reconfigure-whose-revert-failed" {
+					sig = "told-equals-cache after-rejected-reconfigure-whose-revert-failed"
+				} else if strings.HasPrefix(ctx, "failed-") {
 					sig = "told-equals-cache after-failed-request"
 				} else if ctx == "restart" && (f == "cpus" || f == "shares") && o.cpuOptedOut(y) {
 					sig = "told-equals-cache restart stale-persisted-resources-with-cpu-pinning-off"
@@ -521,6 +541,14 @@ func (o *oracles) checkC05(rep reporter, r *reply) {
 		}
 		if r.err != nil {
 			how = "failed-request"
+			if r.kind == "reconfigure" {
+				// a rejected update is reverted and the result pushed: nothing
+				// may stay pending
+				how = "rejected-reconfigure"
+				if r.revertFailed {
+					how = "rejected-reconfigure-whose-revert-failed"
+				}
+			}
 		}
 		rep("nothing-pending", "nothing-pending after-"+how, "after %s %d container(s) still have undelivered changes: %v", how, len(p), ids)
 	}
@@ -567,6 +595,12 @@ func (o *oracles) checkC05(rep reporter, r *reply) {
 	how := r.kind
 	if r.err != nil {
 		how = "failed-" + r.kind
+		if r.kind == "reconfigure" {
+			how = "rejected-reconfigure"
+			if r.revertFailed {
+				how = "rejected-reconfigure-whose-revert-failed"
+			}
+		}
 	}
 	o.checkToldEqualsCache(rep, how)
 }
@@ -667,8 +701,6 @@ func (o *oracles) checkC12(rep reporter, r *reply) {
 	}
 }
 
-func (o *oracles) rememberZones() {}
-
 // poolEmptiedByAncestorSlice: the pool's free shared set is empty and every
 // CPU missing from it is held exclusively by a grant located at a strict
 // ancestor pool (or by this pool's own subtree).
@@ -702,4 +734,37 @@ func (o *oracles) slicedByAncestors(sn *topologyaware.VerifSnap, p *topologyawar
 		}
 	}
 	return out
+}
+
+// checkC14: after a refused request the plugin must still serve a canonical
+// valid sequence (panics and fatal exits are caught by world.call).
+func (o *oracles) checkC14(rep reporter, r *reply) {
+	w := o.w
+	if r.err == nil || w.dead {
+		return
+	}
+	w.res.Probe("request-refused")
+	o.canon++
+	id := fmt.Sprintf("canon%d", o.canon)
+	pod := &PodSpec{ID: "pod-" + id, Name: "p-" + id, Namespace: "default", QoS: "BestEffort"}
+	ctr := &CtrSpec{ID: "ctr-" + id, Pod: pod.ID, Name: "c0"}
+	seq := []Op{{Kind: "run-pod", Pod: pod}, {Kind: "create", Ctr: ctr}, {Kind: "start", ID: ctr.ID}, {Kind: "stop", ID: ctr.ID}, {Kind: "remove", ID: ctr.ID}, {Kind: "stop-pod", ID: pod.ID}, {Kind: "remove-pod", ID: pod.ID}}
+	for i := range seq {
+		seq[i].N = 100000 + o.canon*10 + i
+		w.vw.SetRequest(fmt.Sprintf("canon%d.%d", o.canon, i))
+		rr := w.doOp(&seq[i])
+		w.res.Check("serves-after-refusal")
+		if w.dead {
+			return
+		}
+		if rr.err != nil && seq[i].Kind == "create" && strings.Contains(rr.err.Error(), "failed to allocate resources") {
+			// the machine is simply full: a legitimate refusal of the probe
+			w.res.Probe("canonical-create-refused-for-capacity")
+			return
+		}
+		if rr.skipped || rr.err != nil {
+			rep("serves-after-refusal", "serves-after-refusal "+seq[i].Kind+" after-refused-"+r.kind, "after the refused %s (%v) the canonical %s of a new BestEffort container failed: skipped=%v err=%v", r.kind, r.err, seq[i].Kind, rr.skipped, rr.err)
+			return
+		}
+	}
 }
